@@ -62,26 +62,31 @@ def run(ctx: Ctx) -> None:
             runs[(pos, com)] = X
     base = runs[(False, False)].all_evals
     total = 0
-    for flags, X in runs.items():
-        if flags == (False, False):
-            continue
-        evs = X.all_evals
+    others = {flags: X.all_evals for flags, X in runs.items() if flags != (False, False)}
+    for flags, evs in others.items():
         if len(evs) != len(base):
             ctx.finding("B1", f"flags position={flags[0]} comments={flags[1]}: number of evaluations", "mappyfile/transformer.py", f"{len(evs)} callback evaluations vs {len(base)} in the plain run: the flags change which paths the callbacks take")
-            continue
-        for a, b in zip(base, evs):
+    comparable = {f: evs for f, evs in others.items() if len(evs) == len(base)}
+    seen_keys = set()
+    for i, a in enumerate(base):
+        diffs = []
+        for flags, evs in comparable.items():
+            b = evs[i]
             total += 1
             same = a.label == b.label and a.children_classes == b.children_classes and a.kind == b.kind and (a.kind != "return" or strip_hidden(a.value) == strip_hidden(b.value)) and a.exc == b.exc
-            if same:
-                continue
-            ctx.finding("B1", f"{a.label} | {' '.join(a.children_classes)[:80]} | position={flags[0]} comments={flags[1]}", repo.loc("transformer", repo.func(f"transformer.MapfileTransformer.{a.label}")), f"with the flags on the callback yields {b.cls} {strip_hidden(b.value) if b.kind == 'return' else b.exc} instead of {a.cls} {strip_hidden(a.value) if a.kind == 'return' else a.exc}")
-        ctx.ok("B1", f"flags position={flags[0]} comments={flags[1]}: {len(evs)} callback evaluations compared", "mappyfile/transformer.py", "visible content identical")
-    for i in range(0, 1000):
-        pass
+            if not same:
+                diffs.append((flags, b))
+        key = f"{a.label} | {' '.join(a.children_classes)[:100]}"
+        if key in seen_keys:
+            key += f" #{i}"
+        seen_keys.add(key)
+        loc = repo.loc("transformer", repo.func(f"transformer.MapfileTransformer.{a.label}"))
+        if diffs:
+            flags, b = diffs[0]
+            ctx.finding("B1", f"{a.label} | {' '.join(a.children_classes)[:80]} | position={flags[0]} comments={flags[1]}", loc, f"with the flags on the callback yields {b.cls} {strip_hidden(b.value) if b.kind == 'return' else b.exc} instead of {a.cls} {strip_hidden(a.value) if a.kind == 'return' else a.exc}")
+        else:
+            ctx.ok("B1", key, loc, f"same visible result under the {len(comparable) + 1} flag settings")
     ctx.units["callback_results_compared"] = total
-    # account the instances individually for the floor (one per compared evaluation, cheaply)
-    for a in base[:1000]:
-        ctx.ok("B1", f"{a.label} | {' '.join(a.children_classes)[:60]}", "mappyfile/transformer.py", "same visible result under all four flag settings", nontrivial=False)
     # hidden keys present are only the three documented ones
     for flags, X in runs.items():
         bad = set()
